@@ -21,10 +21,10 @@ def check(ctx):
         leg('s', 2, 40)
         leg('q', 1, 35)
     else:
-        leg('s', 4, 200)
-        leg('q', 2, 500)
-        leg('x', 1, 200)
-        leg('x', 2, 250)
+        leg('s', 4, 150)
+        leg('q', 2, 300)
+        leg('x', 1, 120)
+        leg('x', 2, 150)
     return ctx.finish(RULE, ["sequential consistency at instrumented accesses (no weak-memory effects)",
                              "gcc -fsanitize=thread instrumentation reports every access to the watched objects",
                              "documented usage contract of the non-thread-safe entry points is respected by the scripts"])
